@@ -131,6 +131,41 @@ theorem fee_cost_agree (t : EthTx) (hn : t.normal = true) (p : PTx) (h : fromEth
       simp [PTx.fee, PTx.cost, PTx.effectiveGasPrice, PTx.effectiveFee, PTx.effectiveCost, EthTx.gasPriceField, EthTx.cost, asEth]
     · simp at h
 
+/-- without a base fee (London not active) the message's effective price is go-ethereum's: the fee cap of a dynamic-fee
+    transaction, the gas price of the other two types -/
+theorem effective_price_without_base_fee (t : EthTx) (hn : t.normal = true) (p : PTx) (h : fromEth t = some p) :
+    p.effectiveGasPriceO true none = some t.gasPriceField := by
+  have hr := roundtrip t hn p h
+  have e : asEth p = t := hr
+  subst e
+  unfold fromEth at h
+  split at h
+  · rename_i ht
+    split at h
+    · simp only [Option.some.injEq] at h
+      rw [← h]
+      simp [PTx.effectiveGasPriceO, EthTx.gasPriceField, asEth]
+    · simp at h
+  · rename_i ht
+    split at h
+    · simp only [Option.some.injEq] at h
+      rw [← h]
+      simp [PTx.effectiveGasPriceO, EthTx.gasPriceField, asEth]
+    · simp at h
+  · split at h
+    · simp only [Option.some.injEq] at h
+      rw [← h]
+      simp [PTx.effectiveGasPriceO, EthTx.gasPriceField, asEth]
+    · simp at h
+
+/-- before the repair: a dynamic-fee message (tip 2, cap 10) had no effective price without a base fee — the computation
+    dereferenced the missing value — where go-ethereum says 10 -/
+theorem effective_price_nil_base_counterexample :
+    let t : EthTx := { typ := 2, chainId := 11235, nonce := 3, gas := 21000, gasPrice := 0, gasTipCap := 2, gasFeeCap := 10,
+                       to := some 1, value := 5, data := [], access := [], v := 0, r := 1, s := 1 }
+    (fromEth t).map (fun p => (p.effectiveGasPriceO false none, p.effectiveGasPriceO true none)) = some (none, some 10) := by
+  decide
+
 /-- non-vacuity: a dynamic-fee creation tx with a two-tuple access list, zero `s`, maximal value -/
 example :
     let t : EthTx := EthTx.mk 2 11235 7 21000 0 0 1000000000 none (2 ^ 256 - 1) [0, 255] [(1, [1]), (2, [2, 3])]
